@@ -177,10 +177,14 @@ def appendAddr (old addr : String) : String := if old != "" then old ++ ", " ++ 
 RFC 7230 list rule explicitly does not apply to this header). -/
 def cookies (h : Headers) : List String := (AList.get h "Set-Cookie").getD []
 
-/-- Split a request target at the first '?' (what the receiving server does). -/
+/-- split a character list at the first '?' -/
+def splitQ : List Char → List Char × Option (List Char)
+  | [] => ([], none)
+  | c :: cs => if c = '?' then ([], some cs) else ((c :: (splitQ cs).1), (splitQ cs).2)
+
+/-- Split a request target at the first '?' (what the receiving server does): path, and the
+query if there was a '?'. -/
 def splitTarget (s : String) : String × Option String :=
-  match s.toList.span (· ≠ '?') with
-  | (p, []) => (String.ofList p, none)
-  | (p, _ :: q) => (String.ofList p, some (String.ofList q))
+  (String.ofList (splitQ s.toList).1, (splitQ s.toList).2.map String.ofList)
 
 end Refinery.Model.Proxy
